@@ -23,6 +23,9 @@ type probe func(c []string, out *bufio.Writer)
 
 var probes = map[string]probe{}
 
+// batch probes receive all cases at once (they run cases concurrently and print in order)
+var batchProbes = map[string]func(cases [][]string, out *bufio.Writer){}
+
 func unhex(s string) []byte {
 	if s == "-" {
 		return nil
@@ -50,7 +53,8 @@ func main() {
 	log.StdLog = log.New(log.NopCloser(io.Discard), "")
 	log.SetLevel(log.LEVEL_NONE)
 	p, ok := probes[os.Args[1]]
-	if !ok {
+	bp, okb := batchProbes[os.Args[1]]
+	if !ok && !okb {
 		fmt.Fprintln(os.Stderr, "rsprobe: unknown property", os.Args[1])
 		os.Exit(2)
 	}
@@ -67,12 +71,20 @@ func main() {
 	out := bufio.NewWriterSize(outf, 1<<20)
 	sc := bufio.NewScanner(in)
 	sc.Buffer(make([]byte, 1<<20), 1<<30)
+	var all [][]string
 	for sc.Scan() {
 		line := sc.Text()
 		if line == "" {
 			continue
 		}
-		p(strings.Split(line, " "), out)
+		if okb {
+			all = append(all, strings.Split(line, " "))
+		} else {
+			p(strings.Split(line, " "), out)
+		}
+	}
+	if okb {
+		bp(all, out)
 	}
 	out.Flush()
 	outf.Close()
